@@ -74,7 +74,7 @@ func c01Corpus() []string {
 func c01Levels(tier string) []core.Level {
 	n1, n2 := 3, 5
 	if thorough(tier) {
-		n1, n2 = 4, 6
+		n1, n2 = 4, 7
 	}
 	var lv []core.Level
 	for n := 1; n <= n1; n++ {
